@@ -12,6 +12,7 @@ DEVIATIONS = [  # (cfg suffix, property that must be reported violated)
     ("unsigned_diff_sane", "Sane"),
     ("avg_late", "AvgDef"),
     ("read_unguarded", "StartedGuard"),
+    ("closed_counts_as_started", "ReadsRefusedUnlessStarted"),
 ]
 
 
@@ -39,6 +40,8 @@ def case_classes(path, limit=200000):
             if n >= limit:
                 break
             c = json.loads(line)
+            if c["fam"] == "life":
+                continue
             for e in c["h"]:
                 if e[0] == 1:
                     hit("start")
@@ -67,6 +70,87 @@ def case_classes(path, limit=200000):
     if missing:
         raise vlib.Broken("generated behaviours never contain: %s" % missing)
     return seen
+
+
+LIFE_STATES = ("new", "running", "closed-unstarted", "closed-after-start", "restarted")
+
+
+def life_classes(path):
+    """Vacuity guard for the lifecycle family: every accessor is read in every lifecycle state, with the class the
+    state implies; a running meter is read with a non-zero rate and a non-zero average."""
+    seen = {}
+    n = 0
+
+    def hit(k):
+        seen[k] = seen.get(k, 0) + 1
+    with open(path) as f:
+        for line in f:
+            c = json.loads(line)
+            if c["fam"] != "life":
+                continue
+            n += 1
+            started = closed = ever = False
+            for e in c["h"]:
+                if e[0] == 1:
+                    started = ever = True
+                elif e[0] == 2:
+                    closed, started = True, False
+                    hit("close")
+                elif e[0] == 0:
+                    if closed:
+                        raise vlib.Broken("lifecycle case observes a closed meter: %r" % c)
+                    hit("observe-" + ("running" if started else "unstarted"))
+                elif e[0] == 3:
+                    st = ("restarted" if started else "closed-after-start" if ever else "closed-unstarted") if closed else \
+                         ("running" if started else "new")
+                    want = {"new": 0, "closed-unstarted": 0, "running": 1, "closed-after-start": 2, "restarted": 2}[st]
+                    if e[3] != want or (want == 0 and e[2] != 0) or (want == 1 and e[2] != 1):
+                        raise vlib.Broken("lifecycle case: read in state %s has class %d, ok %d: %r" % (st, e[3], e[2], c))
+                    hit("read%d-%s" % (e[1], st))
+                    if st == "running" and e[4] > 0:
+                        hit("read%d-running-nonzero" % e[1])
+    need = ["close", "observe-running", "observe-unstarted", "read1-running-nonzero", "read4-running-nonzero"]
+    need += ["read%d-%s" % (i, st) for i in (1, 2, 3, 4) for st in LIFE_STATES]
+    missing = [k for k in need if not seen.get(k)]
+    if missing:
+        raise vlib.Broken("lifecycle histories never contain: %s" % missing)
+    seen["histories"] = n
+    return seen
+
+
+def life_selftest(ctx, cases):
+    """The replayer must reject a lifecycle history whose expectation was corrupted: a read of a closed, never started
+    meter marked 'must be answered', and a read of a running meter marked 'must be refused'."""
+    picked = {}
+    with open(cases) as f:
+        for line in f:
+            c = json.loads(line)
+            if c["fam"] != "life":
+                continue
+            kinds = [e[0] for e in c["h"]]
+            if "a" not in picked and kinds[:2] == [2, 3]:
+                bad = json.loads(line)
+                bad["h"][1][2], bad["h"][1][3] = 1, 1
+                picked["a"] = (c, bad)
+            if "b" not in picked and kinds[:2] == [1, 3]:
+                bad = json.loads(line)
+                bad["h"][1][2], bad["h"][1][3] = 0, 0
+                picked["b"] = (c, bad)
+            if len(picked) == 2:
+                break
+    if len(picked) != 2:
+        raise vlib.Broken("self-test: no lifecycle history Close;Read / Start;Read")
+    path = os.path.join(ctx.out, "selftest_life.ndjson")
+    with open(path, "w") as f:
+        for k in ("a", "b"):
+            for c in picked[k]:
+                f.write(json.dumps(c) + "\n")
+    r = ctx.replay("kxps", path, again=0)
+    # a replayer that compares nothing accepts a history AND its corruption; if only the corruption is accepted the library
+    # under test behaves like the corruption, which is the main stage's verdict to give
+    for k in (0, 2):
+        if r[k]["ok"] and r[k + 1]["ok"]:
+            raise vlib.Broken("self-test: a lifecycle history is accepted with its read class and with the opposite one: %r" % r[k + 1])
 
 
 def binding_selftest(ctx, cases):
@@ -101,13 +185,19 @@ def run(ctx):
                 "dt in {0,1,5000,9999,10000,11000,30000,301000} ms, moves {+0,+1,+1000,-5,:=0,:=2^16-2,+2^15} on a 16-bit model counter) "
                 "with the expected three rates and the average after every observation; TLC enumerates every behaviour of the "
                 "time family (17 letters, depth %d), the counter family (21 letters, depth %d) and the public-API family "
-                "(4 letters, depth 3, Start at any position)%s; MC: time alphabet (24 letters) and wrap alphabet (28/35 letters) to depth 4/3 (quick) or 5/4 (thorough); each behaviour is replayed 4 times (hook + identity counter, hook + counter x 2^48, "
-                "public Kbps, public Krps); distinct = distinct behaviours"
-                % ((4, 3, "") if quick else (5, 4, ", plus seeded simulation of 5000 behaviours of 40 observations over the full 56-letter product")))
+                "(4 letters, depth 3, Start at any position)%s; MC: time alphabet (24 letters) and wrap alphabet (28/35 letters) to depth 4/3 (quick) or 5/4 (thorough) "
+                "without Close, and the whole lifecycle (Start, Close, reads at any point) over 15 letters to depth 3 (quick) or 4 (thorough); each behaviour is replayed 4 times (hook + identity counter, hook + counter x 2^48, "
+                "public Kbps, public Krps); lifecycle family: every history of length %d over {Start, Close, Observe(10 s, +1000), read of the "
+                "10 s / 30 s / 300 s rate / average} (Start only on a meter whose started flag is off, Observe only on a meter that is not closed) "
+                "is replayed call by call on the public Kbps and Krps meters (Start = hook flag, sampling = hook with injected clock) and, if it "
+                "has no observation, once more with the real Start(); a read must be refused if Start was never called (new, or closed without a "
+                "start), answered with the specification's value if the meter is running, and is not judged beyond finite/non-negative after "
+                "Start..Close or Close..Start; distinct = distinct behaviours"
+                % ((4, 3, "", 5) if quick else (5, 4, ", plus seeded simulation of 5000 behaviours of 40 observations over the full 56-letter product", 6)))
     ctx.exhaustive = True
     ctx.assumptions += [
         "the sampling step is driven through the verif hook with an injected clock (the public API samples from a goroutine on a 10 s wall-clock timer); "
-        "real Start() is exercised only on meters whose counter stays 0",
+        "real Start() is exercised only on meters whose counter stays 0 (family api, and the lifecycle histories without observations)",
         "every observation is followed by a read of the average at the same instant, so the average's baseline (taken by the library at the "
         "first read that sees a non-zero counter) is the first non-zero observation the property speaks of",
         "which windows sample at an observation follows the library's rule that the property anchors as its mechanism: no sampling while the counter "
@@ -119,19 +209,26 @@ def run(ctx):
         "value and the plain-number value are accepted there, everything else is compared to 1e-12 relative",
         "at an instant with no time elapsed since the first non-zero observation the average is only required to be finite and non-negative",
         "the public Average() reads the real clock: its value is checked against the bracket given by clock readings before and after the call (monotonic clock, no tolerance on time)",
-        "what a meter reports after Close() is not judged",
+        "lifecycle: the package says 'When closed, this kbps should never use again'; the property only demands refusal while Start was never "
+        "called. What a meter that was started and then closed, or closed and then started, answers to a read is specified as the library does it "
+        "(refused / answered) but not judged, except that a returned value must be finite and non-negative; what Close() returns is not judged; "
+        "a second Start on a running meter is not exercised; that Close ends the sampling goroutine within its 10 s period is not observed",
     ]
     ctx.sany("kxps", "Kxps")
     ctx.sany("kxps", "Gen_Kxps")
     # MC: the property holds on the specification, all behaviours within the bounds (two factored alphabets)
     ctx.tlc("kxps", "MC_Kxps", "MC_Kxps_time.%s.cfg" % ctx.tier, timeout=800)
     ctx.tlc("kxps", "MC_Kxps", "MC_Kxps_wrap.%s.cfg" % ctx.tier, timeout=800)
+    # ... and the lifecycle (Close at any point, Start after Close, reads in every state) over the small alphabet
+    ctx.tlc("kxps", "MC_Kxps", "MC_Kxps_life.%s.cfg" % ctx.tier, timeout=800)
     if not quick:
         # action coverage, measured on the small configurations (-coverage slows the large ones fourfold)
         cov = {}
         for fam in ("time", "wrap"):
             info = ctx.tlc("kxps", "MC_Kxps", "MC_Kxps_%s.quick.cfg" % fam, name="MC_Kxps.coverage_%s" % fam, coverage=True, count_states=False)
             cov[fam] = actions_covered(info)
+        info = ctx.tlc("kxps", "MC_Kxps", "MC_Kxps_life.quick.cfg", name="MC_Kxps.coverage_life", coverage=True, count_states=False)
+        cov["life"] = actions_covered(info, ("Observe", "Start", "Close", "ReadRate"))
         ctx.notes["mc_action_coverage"] = cov
     # non-vacuity: each named deviation is caught by the invariant / action property that states the clause it breaks
     for dev, inv in DEVIATIONS:
@@ -139,11 +236,14 @@ def run(ctx):
     # GEN: whole behaviours with expectations
     cases = os.path.join(ctx.out, "cases.ndjson")
     ctx.tlc("kxps", "Gen_Kxps", "Gen_Kxps_api.cfg", cases_to=cases, count_states=False)
+    ctx.tlc("kxps", "Gen_Kxps", "Gen_Kxps_life.%s.cfg" % ctx.tier, cases_to=cases, count_states=False)
     ctx.tlc("kxps", "Gen_Kxps", "Gen_Kxps_counter.%s.cfg" % ctx.tier, cases_to=cases, count_states=False, timeout=800)
     ctx.tlc("kxps", "Gen_Kxps", "Gen_Kxps_time.%s.cfg" % ctx.tier, cases_to=cases, count_states=False, timeout=800)
     if not quick:
         ctx.tlc("kxps", "Gen_Kxps", "Gen_Kxps_sim.cfg", cases_to=cases, simulate=5000, depth=42, count_states=False, timeout=800)
     ctx.notes["case_classes"] = case_classes(cases)
+    ctx.notes["life_classes"] = life_classes(cases)
     binding_selftest(ctx, cases)
+    life_selftest(ctx, cases)
     res = ctx.replay("kxps", cases)
     ctx.judge("kxps", cases, res)
